@@ -160,6 +160,8 @@ type CaseC17 struct {
 	MaxExhaustive int    `json:"max_exhaustive"`
 	Sample        int    `json:"sample"`
 	SampleSeed    uint64 `json:"sample_seed"`
+	// LintErrors: for the lint shapes, that many malformed lines are appended to the linted file (lint reports them and still exits 0)
+	LintErrors int `json:"lint_errors,omitempty"`
 	// Only, if >= 0, restricts the sweep to one offset (set by the minimiser / replay).
 	Only int `json:"only"`
 }
@@ -181,6 +183,9 @@ func genC17(thorough bool) func(t *rapid.T) Case {
 			c.Sample = 200
 		}
 		c.SampleSeed = rapid.Uint64().Draw(t, "sample_seed")
+		if strings.HasPrefix(c.Base.Inv.Shape, "lint") {
+			c.LintErrors = rapid.SampledFrom([]int{0, 0, 1, 7, 99, 100, 101, 250}).Draw(t, "lint_errors")
+		}
 		return c
 	}
 }
@@ -212,6 +217,19 @@ func sweepOffsets(length, maxExhaustive, sample int, seed uint64, bounds []int) 
 // Eval sweeps the sink-failure offsets of one report.
 func (c *CaseC17) Eval(ob *Obs) []Finding {
 	w := c.Base.world()
+	if c.LintErrors > 0 {
+		target := "log.yaml"
+		if c.Base.Inv.Shape == "lint db" {
+			target = "food.yaml"
+		}
+		fi := fileIdx(&w, target)
+		var b strings.Builder
+		b.WriteString(w.Files[fi].Data + "zz/bad:\n")
+		for i := 0; i < c.LintErrors; i++ {
+			fmt.Fprintf(&b, "  bad%d: x\n", i)
+		}
+		w.Files[fi].Data = b.String()
+	}
 	base := ob.run(w)
 	if base.Panic != "" {
 		return nil // crash freedom is C08's business
